@@ -468,6 +468,30 @@ pub fn c10_case(fam: &str, idx: usize, seed: u64) -> Option<Case> {
             let desc = format!("{} size={} suspend at e{} {:?}, cancel there {} ms later (no resume) faults=[{}]", k.describe(), size, who, sc.scripts[0].trig, sc.scripts[0].delay_ms, rules_desc(&sc.rules));
             Some(Case::from(sc, &k, desc, true))
         }
+        "ignored" => {
+            // an earlier fault that the user configured to be ignored (the receiver's inactivity watch, which
+            // fires while the sender is suspended) must leave no trace in a later cancel: both sides still
+            // report the cancel condition
+            let mut rng = Rng::derive(seed, 1004, idx as u64);
+            let who = idx % 2;
+            let mut k = Knobs::base();
+            k.seg = 32;
+            k.nak = nak_procs()[rng.usize(4)];
+            k.ti = 1;
+            k.limit = 2;
+            k.handlers = vec![(Condition::InactivityDetected, FaultHandlerAction::Ignore)];
+            let size = 32 * (40 + rng.usize(40));
+            let c = content(&mut rng, size, idx as u64 % 5, 32, 0xC10);
+            let mut sc = two_party(&case, seed ^ idx as u64, &k, c);
+            let early = Trigger::AfterEmit(0, 1 + rng.usize(10));
+            let pause = 2200 + rng.below(2500);
+            sc.scripts.push(Script { trig: early.clone(), delay_ms: pause + 3, act: Act::Prim(who, PrimKind::Cancel, 0) });
+            sc.scripts.push(Script { trig: early.clone(), delay_ms: 0, act: Act::Prim(0, PrimKind::Suspend, 0) });
+            sc.scripts.push(Script { trig: early, delay_ms: pause, act: Act::Prim(0, PrimKind::Resume, 0) });
+            sc.paced = true;
+            let desc = format!("{} handlers={:?} size={} sender suspended at {:?} for {} ms (the receiver's inactivity fault fires and is ignored), resumed, cancel at e{} 3 ms later", k.describe(), k.handlers, size, sc.scripts[1].trig, pause, who);
+            Some(Case::from(sc, &k, desc, true))
+        }
         "replay" => {
             // the cancel handshake completes; later the link re-delivers the whole first pass (metadata, data,
             // EOF) of the cancelled transaction, as a long-delayed duplicate would
@@ -587,7 +611,9 @@ pub fn judge_c10(info: &Info, log: &RunLog, rep: &mut Report) {
         false
     };
     // a transaction that was already being cancelled by a fault keeps that fault's condition
-    let faulted_before = [t.src, t.dst].iter().any(|e| d.faults(*e, id).iter().any(|f| f.1 <= c_t));
+    // (a fault whose configured handler is Ignore changes nothing: the transaction carries on, and a later cancel
+    // is an ordinary cancel)
+    let faulted_before = [t.src, t.dst].iter().any(|e| d.faults(*e, id).iter().any(|f| f.1 <= c_t && !info.knobs[*e].handlers.iter().any(|(c, a)| *c == f.2.condition && matches!(a, FaultHandlerAction::Ignore))));
     if faulted_before {
         rep.count("c10_cancel_after_fault");
     }
@@ -685,6 +711,8 @@ pub fn run_c10(tier: &str, seed: u64, replay: Option<&str>) -> (Meta, Report) {
     rep.add("cases:rand", nr as u64);
     let nsu = if thorough { 60_000 } else { 1_000 };
     rep.merge(run_cases(nsu, "c10-suspended", move |i| c10_case("suspended", i, seed), judge_c10));
+    rep.merge(run_cases(nsu / 2, "c10-ignored", move |i| c10_case("ignored", i, seed), judge_c10));
+    rep.add("cases:ignored", (nsu / 2) as u64);
     rep.add("cases:suspended", nsu as u64);
     let np = if thorough { 20_000 } else { 300 };
     rep.merge(run_cases(np, "c10-replay", move |i| c10_case("replay", i, seed), judge_c10));
